@@ -21,6 +21,9 @@ P_none3 == NoProg(H3)
 P_switch3 == [i \in H3 |-> IF i = 0 THEN <<B(1), SetC("B", TRUE), B(2)>> ELSE <<SetC("B", TRUE)>>]
 P_switch3n == [i \in H3 |-> IF i = 0 THEN <<SetC("B", TRUE), B(2), Unset(TRUE), B(1)>> ELSE <<SetC("B", TRUE), Unset(TRUE)>>]
 
+\* leave and re-enter a channel twice (recoverID restores the counters saved by the last unsetID)
+P_rec3 == [i \in H3 |-> IF i = 0 THEN <<SetC("B", TRUE), B(1), Unset(TRUE), Recover("B", TRUE), B(2), Unset(TRUE), Recover("B", TRUE), B(3)>>
+                        ELSE <<SetC("B", TRUE), Unset(TRUE), Recover("B", TRUE), Unset(TRUE), Recover("B", TRUE)>>]
 None == {}
 Empty == <<>>
 ChanA == <<"A">>
